@@ -280,3 +280,11 @@ mod tests {
         roundtrip::<Aes256>(&key, &mut ciphertext, expected_plaintext);
     }
 }
+
+// Verification hook (guard: cfg(kani), set only by `cargo kani`); harness code lives outside the repository.
+#[cfg(kani)]
+mod verif_h {
+    #[allow(unused_imports)]
+    use super::*;
+    include!(concat!(env!("ZIP_VERIF_HARNESS_DIR"), "/h_aes_ctr.rs"));
+}
